@@ -39,6 +39,7 @@ class State(object):
         self.writes = set()
         self.fresh_objs = set()
         self.loop_idx = []
+        self.aux = {}
 
     def fork(self):
         s = State()
@@ -51,6 +52,7 @@ class State(object):
         s.writes = set(self.writes)
         s.fresh_objs = set(self.fresh_objs)
         s.loop_idx = list(self.loop_idx)
+        s.aux = dict(self.aux)
         return s
 
     def assume(self, f):
@@ -894,6 +896,9 @@ class Executor(object):
             return st.env[e.id]
         if e.id in ('True', 'False', 'None'):
             return {'True': vbool(True), 'False': vbool(False), 'None': vnone()}[e.id]
+        if e.id == 'object' and 'object' not in self.module.imports:
+            from .pandas_model import OBJECT_DTYPE
+            return V(VAL, OBJECT_DTYPE)
         g = self.module.global_value(e.id, self)
         if g is not None:
             return g
